@@ -118,7 +118,8 @@ func (configgen *ConfigGeneratorImpl) BuildDeltaClusters(proxy *model.Proxy, upd
 	}
 	have := sets.String{}
 	servicesDiffed := false
-	for key := range updates.ConfigsUpdated {
+	// iterate in a stable order: the built services (and so the generated clusters) are appended in this order.
+	for _, key := range slices.SortBy(updates.ConfigsUpdated.UnsortedList(), model.ConfigKey.String) {
 		// deleted clusters for this config.
 		var deleted []string
 		var svcs []*model.Service
